@@ -7,6 +7,7 @@ import (
 	"go/ast"
 	"go/token"
 	"go/types"
+	"math/big"
 	"os"
 	"path/filepath"
 	"sort"
@@ -40,6 +41,8 @@ type Engine struct {
 	byKey  map[string]map[string]*ssa.Function // pkgpath -> key -> fn
 
 	contracts     map[*ssa.Function]*Contract
+	views         map[string]map[string]*Contract // caller package path -> full fn key -> contract
+	phase1Idx     map[string]map[string]*ssa.Function
 	typeContracts map[string]*Contract // "pkgpath.Type" or "pkgpath.Type.Method"
 	overlayDecls  map[*types.Func]*ast.FuncDecl
 	ghostPreds    map[*types.Func]*Pred
@@ -192,6 +195,7 @@ func (e *Engine) Load() error {
 		}
 	}
 	fnIdx := e.indexFunctions(prog)
+	e.phase1Idx = fnIdx
 	overlay := map[string][]byte{}
 	for _, f := range files {
 		p := byDir[filepath.Dir(f)]
@@ -223,6 +227,8 @@ func (e *Engine) Load() error {
 	e.pkgs, e.prog, e.spkgs = pkgs, prog, spkgs
 	e.byKey = e.indexFunctions(prog)
 	e.contracts = map[*ssa.Function]*Contract{}
+	e.views = map[string]map[string]*Contract{}
+	e.phase1Idx = e.byKey
 	e.typeContracts = map[string]*Contract{}
 	e.overlayDecls = map[*types.Func]*ast.FuncDecl{}
 	e.ghostPreds = map[*types.Func]*Pred{}
@@ -308,6 +314,15 @@ func (e *Engine) Load() error {
 			case "func":
 				fn := e.byKey[p.PkgPath][con.Key]
 				if fn == nil {
+					if vf := e.viewTarget(p.Types, con.Key); vf != nil {
+						if e.views[p.PkgPath] == nil {
+							e.views[p.PkgPath] = map[string]*Contract{}
+						}
+						e.views[p.PkgPath][e.fnKey(vf)] = con
+						con.View = true
+						con.ModComps = e.staticModComps(con)
+						continue
+					}
 					return fmt.Errorf("%s:%d: contract target %s not found after overlay load", ps.File, con.Line, con.Key)
 				}
 				if !con.Canary {
@@ -327,6 +342,34 @@ func (e *Engine) infoFor(c *Clause) *types.Info { return e.clauseInfo[c] }
 func (e *Engine) contractFor(fn *ssa.Function) *Contract {
 	if c := e.contracts[fn]; c != nil {
 		return c
+	}
+	return nil
+}
+
+// contractSeenFrom: a package may declare its own (trusted) view of another
+// package's function; that view takes precedence inside that package.
+func (e *Engine) contractSeenFrom(pkgPath string, fn *ssa.Function) *Contract {
+	if vs := e.views[pkgPath]; vs != nil {
+		if c := vs[e.fnKey(fn)]; c != nil {
+			return c
+		}
+	}
+	return e.contracts[fn]
+}
+
+// viewTarget resolves "pkgname.Key" against the imports of pkg.
+func (e *Engine) viewTarget(pkg *types.Package, key string) *ssa.Function {
+	i := strings.Index(key, ".")
+	if i <= 0 || strings.HasPrefix(key, "(") {
+		return nil
+	}
+	name, rest := key[:i], key[i+1:]
+	for _, imp := range pkg.Imports() {
+		if imp.Name() == name {
+			if m := e.phase1Idx[imp.Path()]; m != nil {
+				return m[rest]
+			}
+		}
 	}
 	return nil
 }
@@ -595,8 +638,24 @@ func (e *Engine) uncomparableIDs(w *World) []*Term {
 	return out
 }
 
+// intModeBitop: x | c for a literal power of two c adds c when 0 <= x < c.
 func (e *Engine) intModeBitop(x *Exec, op token.Token, a, b *Term, t types.Type) *Term {
-	return nil
+	if op != token.OR {
+		return nil
+	}
+	if a.isLit && !b.isLit {
+		a, b = b, a
+	}
+	if !b.isLit || b.lit.Sign() <= 0 {
+		return nil
+	}
+	c := b.lit
+	if new(big.Int).And(c, new(big.Int).Sub(c, big.NewInt(1))).Sign() != 0 {
+		return nil
+	}
+	x.w.declFun("bor", "(Int Int) Int")
+	in := And(App("<=", SBool, IntLit(0, SInt), a), App("<", SBool, a, b))
+	return Ite(in, x.w.Add(a, b), App("bor", SInt, a, b))
 }
 
 func (e *Engine) quickFeasible(x *Exec, st *State) bool {
